@@ -42,6 +42,7 @@ type ChildSpec struct {
 	Forks              int  // background children in the same process group
 	ForksIgnoreSignals bool
 	AsUser             bool // the task command names a user (the one the executor itself runs as)
+	MissingBinary      bool // the task command is not run through a shell and names a binary that does not exist: the child never starts
 }
 
 type TransitionSpec struct {
@@ -391,6 +392,10 @@ func main() {
 	shell := true
 	// the wrapping shell is the process group leader; the "device" is its child, as with real task commands
 	value := fmt.Sprintf("echo \"wrapper $$\" >> %s/pids; %s --child; exit $?", plan.Dir, self)
+	if plan.Child.MissingBinary {
+		shell = false
+		value = plan.Dir + "/no-such-binary"
+	}
 	none := "none"
 	var asUser *string
 	if plan.Child.AsUser {
